@@ -14,7 +14,15 @@ scenarios without a crash.
 
 Roles (victims): client routing single calls, parallelize non-batch and batch;
 runner claiming; worker executing incl. retry; reroute on concurrency control;
-kill-and-reroute on stop.
+kill-and-reroute on stop; the process that executes a recovery core task
+(pending / running); a worker *process* of a PersistentProcessRunner (r1 is
+then the parent with two simulated worker processes running the real
+`persistent_process_main`; the parent prunes and replaces the dead worker).
+
+The fault-free strata run the same scenarios without a crash; one of them has a
+live but slow runner (its task threads start late in virtual time and come
+back in the middle of a pending-recovery run), so the recovery services race
+with live owners.
 
 Oracle (end to end): every accepted call (the submitting function had returned
 before the crash) reaches a final status within the virtual budget while r2 and
@@ -42,14 +50,14 @@ LEVEL_TEXT = (
     "on a shared table (every backend effect is one or more such statements; 'before statement n+1' is 'after effect n'), so a batch of "
     "consecutive seeds sweeps the effect boundaries of each role; the evidence reports the distinct (role, table, statement kind, K) hit. "
     "After the crash a surviving runner with the real recovery services runs for up to 130 virtual seconds; every invocation the client had "
-    "been handed must become final and have run. Everything else (workload, interleaving) is seeded; the fault-free stratum checks the same "
-    "scenarios without a crash."
+    "been handed must become final and have run. Everything else (workload, interleaving) is seeded; the fault-free strata check the same "
+    "scenarios without a crash, one of them with a stalled live worker whose start delays end inside the pending-recovery run (fault placement)."
 )
 LEVEL_NOTE = "Trusted: simkit crash semantics (threads unwound with a BaseException, later seam calls of the dead process refused, transactions rolled back), virtual-time recovery configuration (max_pending 3 s, dead-after 12 s, crons every minute), body probe. SQLite stack only (processes are real there); the in-memory family has no separate processes to kill."
 MINIMIZE = "schedule"
 MINIMIZE_BUDGET = 10  # one run costs up to a few seconds (130 virtual seconds of runner loop)
 RULE = (
-    "one run = role (client-single / client-par / client-batch / runner) x workload (flat, tree, retry, keyed-reroute, stop) x crash step K x "
+    "one run = role (client-single / client-par / client-batch / runner / recovery-task process / persistent-process worker / none) x workload (flat, tree, retry, keyed-reroute, stop) x crash step K x "
     "seeded schedule; non-trivial = the crash fired while at least one accepted invocation was not final; distinct = distinct "
     "(role, last completed effect of the victim, switch-site hash)."
 )
@@ -58,10 +66,11 @@ ASSUMPTIONS = [
     "'as long as some runner stays alive and the recovery services keep running': r2 is never killed and runs the atomic services",
     "a final status reached without running the body is legitimate only for CONCURRENCY_CONTROLLED_FINAL",
 ]
-REAL = ["Task.__call__ / parallelize / route_call(s)", "BaseRunner.run + _check_atomic_services", "ThreadRunner", "trigger loop + cron conditions + core tasks", "SQLite orchestrator / broker / state backend / trigger store", "SQLite engine"]
-STUBBED = ["process death (simulated SIGKILL)", "thread / process scheduling", "clock", "uuid4"]
-PROBES = ["crash_fired", "crash_with_inflight_work", "recovered_pending", "recovered_running", "popped_not_claimed_at_crash", "status_written_not_requeued_at_crash", "recovery_lost_race_with_live_owner", "worker_start_stalled", "stalled_workers_resumed_inside_recovery_run"]
+REAL = ["Task.__call__ / parallelize / route_call(s)", "BaseRunner.run + _check_atomic_services", "ThreadRunner", "PersistentProcessRunner parent loop + persistent_process_main (worker main)", "trigger loop + cron conditions + core tasks", "SQLite orchestrator / broker / state backend / trigger store", "SQLite engine"]
+STUBBED = ["process death (simulated SIGKILL)", "multiprocessing.Process / Manager (a worker process is a simulated process with its own Pynenc object)", "thread / process scheduling", "clock", "uuid4"]
+PROBES = ["crash_fired", "crash_with_inflight_work", "recovered_pending", "recovered_running", "popped_not_claimed_at_crash", "status_written_not_requeued_at_crash", "recovery_lost_race_with_live_owner", "dead_worker_replaced", "worker_start_stalled", "stalled_workers_resumed_inside_recovery_run"]
 
+ROLE_NAME = {"recovery": "r1", "w": "ppr-worker"}
 BUDGET_S = 130.0  # dead-after 12 s + next cron minute (<= 60 s) + execution, with margin
 
 CONF = {
@@ -82,6 +91,7 @@ def plan(tier: str) -> list[dict]:
     return [
         {"stratum": "crash-client", "runs": 96 if q else 8000, "params": {"victim": "c"}, "chunk": 6 if q else 200},
         {"stratum": "crash-runner", "runs": 240 if q else 16000, "params": {"victim": "r1"}, "chunk": 15 if q else 400},
+        {"stratum": "crash-ppr-worker", "runs": 96 if q else 8000, "params": {"victim": "w"}, "chunk": 6 if q else 200},
         {"stratum": "crash-recovery-task", "runs": 64 if q else 6000, "params": {"victim": "recovery"}, "chunk": 4 if q else 150},
         {"stratum": "fault-free", "runs": 32 if q else 2000, "params": {"victim": None}, "chunk": 4 if q else 100},
         {"stratum": "fault-free-stalled-worker", "runs": 80 if q else 4000, "params": {"victim": None, "stalled": True}, "chunk": 4 if q else 100},
@@ -109,6 +119,10 @@ def run(seed: int, params: dict, replay: dict | None = None) -> dict:
     elif victim == "r1":
         kind = ["flat", "retry", "tree", "keyed", "stop"][idx % 5]
         K = 1 + ((idx // 5) * 3) % 240
+    elif victim == "w":
+        # a worker process of a PersistentProcessRunner (r1 = parent with two workers) is killed at its K-th statement
+        kind = ["flat", "retry", "tree", "keyed"][idx % 4]
+        K = 1 + ((idx // 4) * 3) % 200
     elif victim == "recovery":
         # the process that happens to execute a recovery core task is killed at the K-th statement of
         # that body; recovery is made busy without any other fault by limits below normal latencies
@@ -148,7 +162,11 @@ def run(seed: int, params: dict, replay: dict | None = None) -> dict:
     if kind == "stalled":
         n_runners = 3
         conf.update({"max_pending_seconds": rng.choice([0.3, 0.5]), "max_threads": rng.choice([2, 3, 4])})
-    with Deployment(seed, "sqlite", n_runners, clients=["c", "z"], services=True, policy=policy, policy_arg=parg, schedule=schedule, max_steps=900_000, max_time=330.0, conf=conf) as d:
+    extra_kw: dict[str, Any] = {}
+    if victim == "w":
+        # the workers poll without pause: a statement costs 2 virtual ms here, so a virtual minute stays affordable
+        extra_kw = {"ppr": {"r1": 2}, "delta": 2e-3}
+    with Deployment(seed, "sqlite", n_runners, clients=["c", "z"], services=True, policy=policy, policy_arg=parg, schedule=schedule, max_steps=900_000, max_time=330.0, conf=conf, **extra_kw) as d:
         sim = d.sim
         w = d.w
         if victim == "recovery" and kind == "recover-pending":
@@ -180,7 +198,7 @@ def run(seed: int, params: dict, replay: dict | None = None) -> dict:
         d.register(simtasks.keyed, running_concurrency=CC.KEYS, key_arguments=("key",), reroute_on_concurrency_control=True)
         accepted: list[str] = []
         state: dict[str, Any] = {"crashed_at": None, "site": None, "last_effect": None, "client_done": False, "count": 0}
-        victim_actor = sim.actor(victim) if victim in ("c", "r1") else None
+        victim_actor = sim.actor(victim) if victim in ("c", "r1") else (sim.actor("r1w1") if victim == "w" else None)
         r1 = d.runners["r1"]
         dead: dict[str, Any] = {"runner_id": r1.runner_id if victim == "r1" else None}
 
@@ -294,6 +312,10 @@ def run(seed: int, params: dict, replay: dict | None = None) -> dict:
         common = w.result_common()
         st = common["stats"]
         crashed = state["crashed_at"] is not None
+        if victim == "w" and "r1w1" in d.worker_procs:
+            dead["runner_id"] = d.worker_procs["r1w1"].kwargs.get("child_runner_id")
+            if crashed and len(d.worker_procs) > 2:
+                st["probe.dead_worker_replaced"] = 1
         if sim.abort_reason != "scenario-done":
             common["inconclusive"] = True
         else:
@@ -370,7 +392,7 @@ def run(seed: int, params: dict, replay: dict | None = None) -> dict:
                 fault_text = f"victim {victim} ({kind}) was killed before its statement #{K} {site} (last completed {last})" if crashed else f"nothing was killed (scenario {kind})"
                 viol.append(
                     {
-                        "signature": f"C03/stranded/{cls}/status={s}/role={'r1' if victim == 'recovery' else victim}{'-in-' + kind if victim == 'recovery' else ''}",
+                        "signature": f"C03/stranded/{cls}/status={s}/role={ROLE_NAME.get(victim, victim)}{'-in-' + kind if victim == 'recovery' else ''}",
                         "message": f"{w.alias(inv)} was accepted but is not final {int(BUDGET_S)} virtual seconds after submission / the crash although r2 and the recovery services kept running: status={s}, queued={int(queued)}, owner={'dead runner' if dead_owner else o}; {fault_text}; transitions: {[(e['status'], e['requester'][:8] if e['requester'] else None) for e in evs]}",
                     }
                 )
